@@ -169,9 +169,9 @@ def _directed_windows(rng, ivs):
 def layout_of(ivs):
     """memory layout of the (N,2) array handed to Livetime: a pure function of the interval values (so a replay rebuilds the
     same array): 0 C-contiguous, 1 transposed view np.array([starts, stops]).T, 2 strided view into a wider array,
-    3 Fortran-ordered copy.  The documented input is 'an (N,2)-shaped float64 ndarray' - the layout is not part of it."""
+    3 Fortran-ordered copy, 4 built by I3Livetime.from_grl_data from a good-run list.  The documented input is 'an (N,2)-shaped float64 ndarray' - the layout is not part of it."""
     import zlib
-    return zlib.crc32(repr(ivs).encode()) % 4
+    return zlib.crc32(repr(ivs).encode()) % 5
 
 
 def mk_array(ivs):
@@ -191,7 +191,151 @@ def mk_array(ivs):
 
 def mk(ivs):
     from skyllh.core.livetime import Livetime
+    if layout_of(ivs) == 4 and len(ivs) > 0:
+        from skyllh.i3.livetime import I3Livetime
+        return I3Livetime.from_grl_data(mk_grl([a for a, b in ivs], [b for a, b in ivs], len(ivs) % 2))
     return Livetime(mk_array(ivs))
+
+
+
+# ------------------------------------------------------------------------------------------
+# good-run-list glue: clip_grl_start_times, I3Livetime.from_grl_data, TimeGenerator
+
+def gen_runs(rng):
+    """(starts, stops, class): good-run lists - valid, overlapping with sorted columns (the documented use:
+    'some runs might overlap slightly'), nested runs, unsorted"""
+    ivs = gen_intervals(rng)
+    starts = [a for a, b in ivs]
+    stops = [b for a, b in ivs]
+    r = rng.random()
+    if r < 0.2 or len(ivs) < 2:
+        return starts, stops, 'valid'
+    if r < 0.7:
+        # overlap: pull some starts back into (or exactly onto an edge of) the previous run, columns stay sorted
+        for i in range(1, len(starts)):
+            if rng.random() < 0.5:
+                lo = max(starts[i - 1], min(starts[i], stops[i - 1]) if rng.random() < 0.3 else starts[i - 1])
+                cand = [starts[i - 1], stops[i - 1], lo + (stops[i - 1] - lo) * rng.random(),
+                        float(np.nextafter(stops[i - 1], -np.inf)), float(np.nextafter(stops[i - 1], np.inf))]
+                c = rng.choice(cand)
+                if starts[i - 1] <= c <= starts[i]:
+                    starts[i] = c
+        return starts, stops, 'overlap-sorted-columns'
+    if r < 0.85:
+        # a run nested inside its predecessor (stop column not sorted)
+        i = rng.randrange(1, len(starts))
+        a, b = starts[i - 1], stops[i - 1]
+        starts[i] = a + (b - a) * 0.25
+        stops[i] = a + (b - a) * 0.5
+        return starts, stops, 'nested'
+    i = rng.randrange(1, len(starts))
+    starts[i - 1], starts[i] = starts[i], starts[i - 1]
+    stops[i - 1], stops[i] = stops[i], stops[i - 1]
+    return starts, stops, 'unsorted'
+
+
+def mk_grl(starts, stops, form):
+    """the good-run list as the analyses hold it: form 0 numpy structured array, 1 DataFieldRecordArray (Dataset.grl)"""
+    n = len(starts)
+    arr = np.empty((n,), dtype=[('run', np.int64), ('start', np.float64), ('stop', np.float64), ('livetime', np.float64)])
+    arr['run'] = 1000 + np.arange(n)
+    arr['start'] = starts
+    arr['stop'] = stops
+    arr['livetime'] = np.array(stops) - np.array(starts)
+    if form == 1:
+        from skyllh.core.storage import DataFieldRecordArray
+        return DataFieldRecordArray(arr, copy=True)
+    return arr
+
+
+def o_grl(ctx, case):
+    from skyllh.analyses.i3.publicdata_ps.utils import clip_grl_start_times
+    from skyllh.i3.livetime import I3Livetime
+    starts, stops, form = case['starts'], case['stops'], case['form']
+    n = len(starts)
+    runs = list(zip(starts, stops))
+    desc = 'good-run list starts=%r stops=%r (%s)' % (starts, stops, 'DataFieldRecordArray' if form else 'structured ndarray')
+    # -- from_grl_data on the list as it is: accepted iff the rows are a valid interval list, holds exactly the rows
+    flat_ = [x for p in runs for x in p]
+    ok = all(a <= b for a, b in zip(flat_, flat_[1:]))
+    grl = mk_grl(starts, stops, form)
+    try:
+        lt = I3Livetime.from_grl_data(grl)
+        acc = True
+    except ValueError:
+        acc = False
+    except Exception as e:  # noqa
+        return 'I3Livetime.from_grl_data on %s raised %s: %s' % (desc, type(e).__name__, e)
+    if acc != ok:
+        return 'I3Livetime.from_grl_data on %s accepted=%s but rows are a valid interval list=%s' % (desc, acc, ok)
+    if acc:
+        if not isinstance(lt, I3Livetime):
+            return 'I3Livetime.from_grl_data returned a %s' % type(lt).__name__
+        if lt.uptime_mjd_intervals_arr.tolist() != [list(p) for p in runs]:
+            return 'I3Livetime.from_grl_data on %s holds %r' % (desc, lt.uptime_mjd_intervals_arr.tolist())
+        before = lt.uptime_mjd_intervals_arr.copy()
+        grl['start'][:] = -1.0
+        if not np.array_equal(lt.uptime_mjd_intervals_arr, before):
+            return 'writing into the good-run list after I3Livetime.from_grl_data changed the live-time object'
+    # -- clip_grl_start_times: in place, only start[1:], new start = max(start, previous stop)
+    grl = mk_grl(starts, stops, form)
+    try:
+        ret = clip_grl_start_times(grl_data=grl)
+    except Exception as e:  # noqa
+        return 'clip_grl_start_times on %s raised %s: %s' % (desc, type(e).__name__, e)
+    if ret is not None:
+        return 'clip_grl_start_times returned %r' % (ret,)
+    new_start = [float(x) for x in grl['start']]
+    want = [starts[0]] + [max(starts[i], stops[i - 1]) for i in range(1, n)]
+    if new_start != want:
+        return 'clip_grl_start_times on %s: start column %r, expected max(start, previous stop) = %r' % (desc, new_start, want)
+    if [float(x) for x in grl['stop']] != list(stops) or [int(x) for x in grl['run']] != [1000 + i for i in range(n)] \
+            or len(grl) != n:
+        return 'clip_grl_start_times on %s changed something else than the start column' % desc
+    for i in range(1, n):
+        if new_start[i] < stops[i - 1]:
+            return 'after clip_grl_start_times run %d starts (%r) before run %d stops (%r)' % (i, new_start[i], i - 1, stops[i - 1])
+    # -- clip, then build: sorted columns with start <= stop  =>  construction succeeds and on-time = union of the original runs
+    cols_sorted = (all(a <= b for a, b in zip(starts, starts[1:])) and all(a <= b for a, b in zip(stops, stops[1:]))
+                   and all(a <= b for a, b in runs))
+    cflat = [x for p in zip(new_start, stops) for x in p]
+    cok = all(a <= b for a, b in zip(cflat, cflat[1:]))
+    try:
+        lt = I3Livetime.from_grl_data(grl)
+        acc = True
+    except ValueError:
+        acc = False
+    except Exception as e:  # noqa
+        return 'clip + I3Livetime.from_grl_data on %s raised %s: %s' % (desc, type(e).__name__, e)
+    if cols_sorted and not acc:
+        return 'clip_grl_start_times + I3Livetime.from_grl_data rejected %s (sorted columns, start <= stop)' % desc
+    if acc != cok:
+        return 'clip + I3Livetime.from_grl_data on %s accepted=%s but the clipped rows are valid=%s' % (desc, acc, cok)
+    if acc and cols_sorted:
+        ts = sorted(set(flat_ + [float(np.nextafter(x, -np.inf)) for x in flat_] + [float(np.nextafter(x, np.inf)) for x in flat_]
+                        + [(a + b) / 2 for a, b in zip(flat_, flat_[1:])]))
+        got = lt.is_on(np.array(ts, dtype=np.float64))
+        for t, g in zip(ts, got):
+            w = any(a <= t < b for a, b in runs)
+            if bool(g) != w:
+                return ('after clip_grl_start_times + from_grl_data on %s: is_on(%r) = %s but the time lies %s a run'
+                        % (desc, t, bool(g), 'inside' if w else 'outside'))
+        # live time = measure of the union of the runs
+        un, cur = Fraction(0), None
+        for a, b in runs:
+            a, b = fr(a), fr(b)
+            if cur is None or a > cur[1]:
+                if cur is not None:
+                    un += cur[1] - cur[0]
+                cur = [a, b]
+            else:
+                cur[1] = max(cur[1], b)
+        if cur is not None:
+            un += cur[1] - cur[0]
+        tot = sum(abs(b - a) for a, b in runs) + 1e-300
+        if not np.isfinite(float(lt.livetime)) or abs(Fraction(float(lt.livetime)) - un) > Fraction(1e-9) * Fraction(tot):
+            return 'after clip + from_grl_data on %s: live time %r, measure of the union of the runs %r' % (desc, float(lt.livetime), float(un))
+    return None
 
 
 # ------------------------------------------------------------------------------------------
@@ -295,12 +439,18 @@ class _StubRSS:
 def o_draw(ctx, case):
     ivs, us, t0, t1 = case['ivs'], case['us'], case.get('t0'), case.get('t1')
     lt = mk(ivs)
+    what = 'draw_ontimes'
     try:
-        xs = lt.draw_ontimes(_StubRSS(us), len(us), t_min=t0, t_max=t1)
+        if case.get('via') == 'generator':
+            from skyllh.core.times import LivetimeTimeGenerationMethod, TimeGenerator
+            what = 'TimeGenerator(LivetimeTimeGenerationMethod).generate_times'
+            xs = TimeGenerator(LivetimeTimeGenerationMethod(lt)).generate_times(_StubRSS(us), len(us), t_min=t0, t_max=t1)
+        else:
+            xs = lt.draw_ontimes(_StubRSS(us), len(us), t_min=t0, t_max=t1)
     except Exception as e:  # noqa
-        return 'draw_ontimes on %r window (%r,%r) raised %s: %s' % (ivs, t0, t1, type(e).__name__, e)
+        return '%s on %r window (%r,%r) raised %s: %s' % (what, ivs, t0, t1, type(e).__name__, e)
     if len(xs) != len(us):
-        return 'draw_ontimes returned %d values for size=%d' % (len(xs), len(us))
+        return '%s returned %d values for size=%d' % (what, len(xs), len(us))
     lo = ivs[0][0] if t0 is None else t0
     hi = ivs[-1][1] if t1 is None else t1
     for u, x in zip(us, xs):
@@ -309,7 +459,7 @@ def o_draw(ctx, case):
             return x == b and abs(np.nextafter(b, -np.inf) - b) >= 0
         ok = any((a <= x < b) or (b > a and near(x, b)) for a, b in ivs) and lo <= x <= hi
         if not ok:
-            return 'draw_ontimes: u=%r gives t=%r which is not on-time inside the window (%r,%r) of %r' % (u, x, t0, t1, ivs)
+            return '%s: u=%r gives t=%r which is not on-time inside the window (%r,%r) of %r' % (what, u, x, t0, t1, ivs)
     return None
 
 
@@ -485,6 +635,33 @@ def _corr_lines(case):
             v = 'ERR'
         opt = lambda x: 'N' if x is None else f2b(x)  # noqa
         return 'drawwin %s %s %s %s' % (es, opt(case['a0']), opt(case['a1']), f2b(case['u'])), v
+    if k == 'gentime':
+        from skyllh.core.times import LivetimeTimeGenerationMethod, TimeGenerator
+        kw = {}
+        if case['a0'] is not None or case['form']:
+            kw['t_min'] = case['a0']
+        if case['a1'] is not None or case['form']:
+            kw['t_max'] = case['a1']
+        try:
+            v = f2b(TimeGenerator(LivetimeTimeGenerationMethod(mk(ivs))).generate_times(_StubRSS([case['u']]), 1, **kw)[0])
+        except Exception as e:  # noqa
+            v = 'ERR'
+        opt = lambda x: 'N' if x is None else f2b(x)  # noqa
+        return 'gentime %s %s %s %s' % (es, opt(case['a0']), opt(case['a1']), f2b(case['u'])), v
+    if k in ('clip', 'grl', 'grlclip'):
+        from skyllh.analyses.i3.publicdata_ps.utils import clip_grl_start_times
+        from skyllh.i3.livetime import I3Livetime
+        grl = mk_grl(case['starts'], case['stops'], case['form'])
+        try:
+            if k != 'grl':
+                clip_grl_start_times(grl_data=grl)
+            if k == 'clip':
+                v = flist([float(x) for x in grl['start']])
+            else:
+                v = flist([float(x) for x in I3Livetime.from_grl_data(grl).uptime_mjd_intervals_arr.reshape((-1,))])
+        except ValueError:
+            v = 'ERR'
+        return '%s %s %s' % (k, flist(case['starts']), flist(case['stops'])), v
     if k == 'subset':
         from skyllh.core.dataset import DatasetData, get_data_subset
         from skyllh.core.storage import DataFieldRecordArray
@@ -539,11 +716,12 @@ def _corr_compare(case, impl, model):
 
 ORACLES = {
     'is_on': o_is_on, 'between': o_between, 'upto': o_upto, 'draw': o_draw, 'subset': o_subset,
-    'integrity': o_integrity, 'corr': o_corr, 'history': o_history, 'alias': o_alias,
+    'integrity': o_integrity, 'corr': o_corr, 'history': o_history, 'alias': o_alias, 'grl': o_grl,
 }
 
 # which property oracle looks at the same behaviour as a correspondence kind
-_ORACLE_OF_KIND = {'ison': 'is_on', 'between': 'between', 'upto': 'upto', 'draw': 'draw', 'drawwin': 'draw', 'subset': 'subset', 'integ': 'integrity'}
+_ORACLE_OF_KIND = {'ison': 'is_on', 'between': 'between', 'upto': 'upto', 'draw': 'draw', 'drawwin': 'draw', 'gentime': 'draw', 'subset': 'subset', 'integ': 'integrity',
+                   'clip': 'grl', 'grl': 'grl', 'grlclip': 'grl'}
 
 
 def _oracle_case_for(case):
@@ -558,6 +736,10 @@ def _oracle_case_for(case):
         return {'ivs': case['ivs'], 'us': [case['u']]}
     if k == 'drawwin':
         return {'ivs': case['ivs'], 'us': [case['u']], 't0': case['a0'], 't1': case['a1']}
+    if k == 'gentime':
+        return {'ivs': case['ivs'], 'us': [case['u']], 't0': case['a0'], 't1': case['a1'], 'via': 'generator'}
+    if k in ('clip', 'grl', 'grlclip'):
+        return {'starts': case['starts'], 'stops': case['stops'], 'form': case['form']}
     if k == 'subset':
         return {'ivs': case['ivs'], 'times': case['times'], 't0': case['t0'], 't1': case['t1']}
     if k == 'integ':
@@ -648,6 +830,9 @@ def run(ctx):
                     cases.append({'kind': 'drawwin', 'ivs': ivs, 'u': float(rng.choice(us)), 't0': lo_, 't1': hi_,
                                   'a0': t0, 'a1': t1})
                     ctx.count('draw:bounds=' + ('both' if t0 is not None and t1 is not None else 'one-None'))
+                    cases.append({'kind': 'gentime', 'ivs': ivs, 'u': float(rng.choice(us)), 'a0': t0, 'a1': t1,
+                                  'form': rng.randrange(2)})
+                    oracle_cases.append(('draw', {'ivs': ivs, 'us': us, 't0': t0, 't1': t1, 'via': 'generator'}))
         times = [rng.choice(ts) for _ in range(rng.randrange(0, 12))]
         i = rng.randrange(len(sts))
         j = rng.randrange(i, len(sts))
@@ -662,6 +847,15 @@ def run(ctx):
         if sum(b - a for a, b in ivs) == 0:
             cases.append({'kind': 'draw', 'ivs': ivs, 'u': 0.5})
             ctx.count('draw:zero-live-time')
+        # good-run-list glue
+        for _ in range(2):
+            starts_, stops_, cls = gen_runs(rng)
+            form = rng.randrange(2)
+            ctx.count('grl:' + cls)
+            oracle_cases.append(('grl', {'starts': starts_, 'stops': stops_, 'form': form}))
+            for kk in ('clip', 'grl', 'grlclip'):
+                cases.append({'kind': kk, 'ivs': [], 'starts': starts_, 'stops': stops_, 'form': form})
+        cases.append({'kind': 'gentime', 'ivs': ivs, 'u': 0.25, 'a0': None, 'a1': None, 'form': 0})
         edges = [x for p in ivs for x in p]
         if rng.random() < 0.5 and len(edges) >= 2:
             k = rng.randrange(len(edges) - 1)
@@ -694,7 +888,8 @@ def run(ctx):
     models = ctx.driver('C14', reqs)
     suspicious = []
     for c, i, m in zip(cases, impls, models):
-        ctx.case(nontrivial=True, key=(c['kind'], c['ivs'], c.get('t'), c.get('t0'), c.get('t1'), c.get('u')),
+        ctx.case(nontrivial=True, key=(c['kind'], c['ivs'], c.get('t'), c.get('t0'), c.get('t1'), c.get('u'), c.get('a0'), c.get('a1'),
+                                       c.get('starts'), c.get('stops')),
                  desc=c if ctx.evaluations % 997 == 0 else None)
         ctx.count('corr:' + c['kind'])
         d = _corr_compare(c, i, m)
@@ -741,13 +936,17 @@ MANIFEST = dict(
           'returns the empty array when there is no on-time (intervals of positive length), no degenerate rows, and again a valid '
           '(sorted) interval array; get_livetime_upto = Σ(min stop t − min start t); draw_ontimes with its None defaults lands in on-time '
           'inside the effective window; get_data_subset composed (mask, intervals, live time = on-time inside the window); the setter '
-          'validates first, so after any history the object holds the last accepted sorted list and answers like a fresh object. The '
+          'validates first, so after any history the object holds the last accepted sorted list and answers like a fresh object; the good-run-list '
+          'glue: clip_grl_start_times leaves no run starting before its predecessor stops and, for sorted start/stop columns, clip + '
+          'I3Livetime.from_grl_data yields a valid live time whose on-time is exactly the union of the original runs (nested runs are rejected '
+          'by the constructor, proved as the boundary); TimeGenerator / LivetimeTimeGenerationMethod hand through to draw_ontimes. The '
           'executable model is compared (bit-exactly where it only passes values through) with Livetime.is_on / '
           'get_uptime_intervals_between / get_livetime_upto / draw_ontimes / get_data_subset / the integrity check on every run, incl. '
           'error paths; exact-fraction, fresh-vs-used (histories through the setter) and aliasing oracles search the implementation.'),
     note=('IEEE rounding is outside the theorems (e.g. lower + y rounding up to the closed upper edge in draw_ontimes); NaN times and '
           'subnormal times are outside the generated domain; numpy.digitize/cumsum are re-implemented in the model and compared on every '
-          'run; np.sum pairwise summation of the total live time is compared with a tolerance. Not modelled: I3Livetime.from_grl_*, '
-          'clip_grl_start_times, TimeGenerator pass-through (the latter is exercised by C08).'),
+          'run; np.sum pairwise summation of the total live time is compared with a tolerance; the memory layout of the interval array '
+          '(C / Fortran order, strided views, built by from_grl_data) is varied by the harness, the model sees the logical array. Not '
+          'modelled: I3Livetime.from_grl_files / from_I3Dataset (file loading).'),
     design='DESIGN.md section 4 C14, review.d/C14.md',
     technique='Lean 4 proof (induction over interval lists, refinement of index arithmetic to a specification) + model/implementation correspondence')
